@@ -1,6 +1,7 @@
 package harness
 
 import (
+	"os"
 	"errors"
 	"fmt"
 	"strings"
@@ -172,7 +173,47 @@ type txState struct {
 	ended    bool
 	ops      map[string]int
 	total    int
+	// byte slices handed to the code under test during this transaction (bbolt only).
+	// bbolt: "the returned value is only valid for the life of the transaction" — the
+	// memory map behind it may be remapped or its page reused as soon as the
+	// transaction is over. The proxy hands out copies and overwrites them when the
+	// transaction ends, which is the worst the contract allows, every time: code that
+	// keeps such a slice reads garbage deterministically instead of once in a while.
+	lent [][]byte
 }
+
+const poisonByte = 0xDB
+
+func (tx *txState) lend(v []byte) []byte {
+	if v == nil || tx.p.path == "" || !PoisonLentSlices {
+		return v
+	}
+	c := make([]byte, len(v))
+	copy(c, v)
+	tx.lent = append(tx.lent, c)
+	return c
+}
+
+func (tx *txState) lendFn(f func(k, v []byte) error) func(k, v []byte) error {
+	return func(k, v []byte) error { return f(tx.lend(k), tx.lend(v)) }
+}
+
+// finish marks the transaction as over and poisons everything it lent.
+func (tx *txState) finish() {
+	tx.ended = true
+	for _, b := range tx.lent {
+		for i := range b {
+			b[i] = poisonByte
+		}
+	}
+	if len(tx.lent) > 0 {
+		sim.CountN("store:slices-poisoned", len(tx.lent))
+	}
+	tx.lent = nil
+}
+
+// PoisonLentSlices can be switched off for an experiment (SIM_NO_POISON=1).
+var PoisonLentSlices = os.Getenv("SIM_NO_POISON") == ""
 
 func (p *ProxyStore) Path() string { return p.inner.Path() }
 
@@ -203,7 +244,7 @@ func (p *ProxyStore) Read(f func(diskstore.BucketManager) error) error {
 	err := p.inner.Read(func(bm diskstore.BucketManager) error {
 		return f(&proxyBM{inner: bm, tx: tx})
 	})
-	tx.ended = true
+	tx.finish()
 	sim.Yield("store:read-end")
 	return err
 }
@@ -278,7 +319,7 @@ func (p *ProxyStore) Write(f func(diskstore.BucketManager) error) (err error) {
 			return nil
 		})
 	}()
-	tx.ended = true
+	tx.finish()
 	_ = userReturned
 	w.mu.Lock()
 	w.lastTxOps = tx.ops
@@ -444,7 +485,7 @@ func (b *proxyBucket) IsReadOnly() bool { return b.inner.IsReadOnly() }
 func (b *proxyBucket) Get(k []byte) (v []byte) {
 	b.tx.op("get")
 	b.tx.guard("Bucket.Get", func() { v = b.inner.Get(k) })
-	return
+	return b.tx.lend(v)
 }
 
 func (b *proxyBucket) Put(k, v []byte) (err error) {
@@ -467,7 +508,7 @@ func (b *proxyBucket) ForEach(f func(k, v []byte) error) (err error) {
 	if e := b.tx.op("scan"); e != nil {
 		return e
 	}
-	b.tx.guard("Bucket.ForEach", func() { err = b.inner.ForEach(f) })
+	b.tx.guard("Bucket.ForEach", func() { err = b.inner.ForEach(b.tx.lendFn(f)) })
 	return
 }
 
@@ -475,7 +516,7 @@ func (b *proxyBucket) PrefixScan(prefix []byte, f func(k, v []byte) error) (err 
 	if e := b.tx.op("scan"); e != nil {
 		return e
 	}
-	b.tx.guard("Bucket.PrefixScan", func() { err = b.inner.PrefixScan(prefix, f) })
+	b.tx.guard("Bucket.PrefixScan", func() { err = b.inner.PrefixScan(prefix, b.tx.lendFn(f)) })
 	return
 }
 
@@ -483,6 +524,6 @@ func (b *proxyBucket) RangeScan(start, end []byte, inclusive bool, f func(k, v [
 	if e := b.tx.op("scan"); e != nil {
 		return e
 	}
-	b.tx.guard("Bucket.RangeScan", func() { err = b.inner.RangeScan(start, end, inclusive, f) })
+	b.tx.guard("Bucket.RangeScan", func() { err = b.inner.RangeScan(start, end, inclusive, b.tx.lendFn(f)) })
 	return
 }
